@@ -43,6 +43,11 @@ func NewEncoder(w *bufio.Writer, side ConnSide) *Encoder {
 	return &Encoder{w: w, side: side}
 }
 
+// Err returns the first error encountered by the encoder, if any.
+func (enc *Encoder) Err() error {
+	return enc.err
+}
+
 func (enc *Encoder) setErr(err error) {
 	if enc.err == nil {
 		enc.err = err
@@ -129,6 +134,13 @@ func (enc *Encoder) validQuoted(s string) bool {
 }
 
 func (enc *Encoder) stringLiteral(s string) {
+	if enc.err != nil {
+		// The command has already failed (e.g. a previous literal was refused
+		// by the server): don't request another continuation and don't write
+		// anything more
+		return
+	}
+
 	var sync *ContinuationRequest
 	if enc.side == ConnSideClient && (!enc.LiteralMinus || len(s) > 4096) && !enc.LiteralPlus {
 		if enc.NewContinuationRequest != nil {
@@ -256,6 +268,11 @@ func (enc *Encoder) UID(uid imap.UID) *Encoder {
 func (enc *Encoder) Literal(size int64, sync *ContinuationRequest) io.WriteCloser {
 	if sync != nil && enc.side == ConnSideServer {
 		panic("imapwire: sync must be nil on a server-side Encoder.Literal")
+	}
+
+	if enc.err != nil {
+		// The literal data must not reach the underlying writer
+		return errorWriter{enc.err}
 	}
 
 	// TODO: literal8
